@@ -17,9 +17,12 @@ class Failure:
         self.clause_ids = []
         self.repo_sites = []
         self.kind = "obligation"    # obligation | frontend | rlimit | speclib
+        self.hint_tags = []
+        self.lemma_tags = []
+        self.line_tags = []
 
     def describe(self):
-        return "%s [%s] %s" % (self.message, ",".join(self.clause_ids) or "-", ",".join(self.repo_sites))
+        return "%s [%s] tags=%s %s" % (self.message, ",".join(self.clause_ids) or "-", ",".join(self.tags), ",".join(self.repo_sites))
 
 FRONTEND_PAT = re.compile(r"(not supported|unsupported|cannot find|mismatched types|expected .* found|unresolved|no method named|"
                           r"cannot borrow|does not live long enough|borrowed|use of moved|is not satisfied|syntax|"
@@ -129,16 +132,31 @@ def run_unit(spec_name, seed=None, rlimit=None, extra_args=(), keep_name=None, t
         f.kind = classify(msg)
         for sp in spans:
             o = sp["origin"]
+            # most specific attribution: a trailing `// [TAG,TAG]` on the very line that failed
+            if sp["line"] and o[0] in ("hint", "speclib"):
+                mm = re.search(r"//\s*\[([A-Za-z0-9_,\. ]+)\]\s*$", out.lines[sp["line"] - 1])
+                if mm and sp.get("primary"):
+                    f.line_tags += [x.strip() for x in mm.group(1).split(",") if x.strip()]
             if o[0] == "clause":
                 f.tags += [t for t in o[4] if t]
                 f.clause_ids.append(o[6])
             elif o[0] == "hint":
                 f.clause_ids.append("hint@%s:%s" % (o[2], o[3]))
-                m = re.match(r"^\s*\[([^\]]*)\]", "")
+                f.hint_tags += list(o[5])
             elif o[0] == "repo":
                 f.repo_sites.append("src/%s:%d" % (o[1], o[2]))
             elif o[0] == "speclib":
                 f.clause_ids.append("speclib/%s:%d" % (o[1], o[2]))
+                # a requires-clause of a speclib lemma may carry its own attribution: `// [TAG,TAG]`
+                mm = re.search(r"//\s*\[([A-Za-z0-9_,\. ]+)\]\s*$", out.lines[sp["line"] - 1])
+                if mm:
+                    f.lemma_tags += [x.strip() for x in mm.group(1).split(",") if x.strip()]
+        # attribution: clause tags; a failing lemma precondition inside a hint is attributed by the tag
+        # comment on that requires-line, else by the tags of the hint
+        if f.line_tags:
+            f.tags = f.line_tags
+        elif not f.tags:
+            f.tags = f.lemma_tags or f.hint_tags
         res["failures"].append(f)
     if res["status"] == "ok":
         kinds = {f.kind for f in res["failures"]}
